@@ -116,6 +116,12 @@ def enum_units(tier, seed):
         {"rom": "low", "files": {}, "ir": [org, {"k": "macro", "n": "m_v", "ps": [], "b": [{"k": "data", "d": "db", "es": [L(0xA1)]}]},
                                           {"k": "block", "b": [{"k": "call", "n": "m_v", "args": []}, {"k": "if", "c": L(1), "t": [{"k": "macro", "n": "m_v", "ps": [], "b": [{"k": "data", "d": "db", "es": [L(0xA2), L(0xA3)]}]}], "e": None},
                                                                {"k": "call", "n": "m_v", "args": []}]}, {"k": "call", "n": "m_v", "args": []}]},
+        # a bare parameter name as an argument is the number it is bound to in the nearest application, also when an enclosing
+        # application has a code-block parameter of the same name (whose block contains this very call)
+        {"rom": "low", "files": {}, "ir": [org, {"k": "macro", "n": "m_byte", "ps": ["p_v"], "b": [{"k": "data", "d": "db", "es": [["id", "p_v"]]}]},
+                                          {"k": "macro", "n": "m_fill", "ps": ["p_v"], "b": [{"k": "call", "n": "m_byte", "args": [["id", "p_v"]]}, {"k": "call", "n": "m_byte", "args": [["bin", "+", ["id", "p_v"], L(1)]]}]},
+                                          {"k": "macro", "n": "m_twice", "ps": ["p_v"], "b": [{"k": "splice", "p": "p_v"}, {"k": "data", "d": "db", "es": [L(0xEE)]}, {"k": "splice", "p": "p_v"}]},
+                                          {"k": "call", "n": "m_twice", "args": [{"code": [{"k": "call", "n": "m_fill", "args": [L(7)]}]}]}]},
         # a late-resolved parameter passed on to a nested application while a global constant has the parameter's name
         {"rom": "high", "files": {}, "ir": [{"k": "const", "n": "p_ay", "e": L(5), "eager": True}, {"k": "org", "a": 0x500003},
                                            {"k": "macro", "n": "m_a", "ps": ["p_ax", "p_ay"], "b": [
